@@ -140,6 +140,42 @@ def edge_case(draw):
     return {"kind": "edge", "src": EDGE_HEAD + "function main() -> void {\n    " + "\n    ".join(lines) + "\n}\n"}
 
 
+# ------------------------------------------------------------------ array boundary family (validity known in closed form)
+B_TYPES = {"int": ("1", "7"), "long": ("1L", "7L"), "float": ("1.5f", "7.5f"), "bit": ("1b", "0b"), "boolean": ("true", "false"),
+           "string": ('"s"', '"t"'), "char": ("'c'", "'d'")}
+B_HOLDERS = ["literal", "sized", "param", "field"]
+
+
+@st.composite
+def bounds_case(draw):
+    t = draw(st.sampled_from(sorted(B_TYPES)))
+    n = draw(st.integers(1, 5))
+    idx = draw(st.sampled_from([-1, 0, n - 1, n, n, n + 1, 2147483647, -2147483647]))
+    return {"kind": "bounds", "t": t, "n": n, "idx": idx, "holder": draw(st.sampled_from(B_HOLDERS)), "store": draw(st.booleans())}
+
+
+def bounds_program(case):
+    t, n, idx = case["t"], case["n"], case["idx"]
+    e, v = B_TYPES[t]
+    lit = "{" + ", ".join([e] * n) + "}"
+    head = (f"class Hold {{ public {t}[] fld = {lit}; public constructor() -> Hold {{ return this; }} "
+            f"public function put(int i, {t} v) -> void {{ fld[i] = v; }} public function at(int i) -> {t} {{ return fld[i]; }} }}\n"
+            f"function putP({t}[] a, int i, {t} v) -> void {{ a[i] = v; }}\nfunction atP({t}[] a, int i) -> {t} {{ return a[i]; }}\n")
+    k = f"int k = {idx};" if idx >= 0 else f"int k = 0 - {-idx};"
+    h = case["holder"]
+    if h == "sized":
+        decl = f"{t}[{n}] a;"
+    elif h == "field":
+        decl = "Hold h = new Hold();"
+    else:
+        decl = f"{t}[] a = {lit};"
+    if case["store"]:
+        op = {"literal": f"a[k] = {v};", "sized": f"a[k] = {v};", "param": f"putP(a, k, {v});", "field": f"h.put(k, {v});"}[h]
+    else:
+        op = {"literal": "echo(a[k]);", "sized": "echo(a[k]);", "param": "echo(atP(a, k));", "field": "echo(h.at(k));"}[h]
+    return head + f"function main() -> void {{ {k} {decl} {op} echo(\"done\"); }}\n"
+
+
 LIT_RE = re.compile(r"(?<![\w.])(\d+)(L?)(?![\w.])")
 
 
@@ -177,7 +213,29 @@ class C12(Check):
                    "child stack limit raised to 1 GiB so bounded recursion is not mistaken for a crash"]
     floors = {"__nontrivial__": (600, 20000), "runtime_error": (300, 8000), "edge": (600, 15000)}
 
+    def bounds_run(self, case, sc, stats=None):
+        src = bounds_program(case)
+        valid = 0 <= case["idx"] < case["n"]
+        r = progrun.run_cli(self.drv, sc, src)
+        if r.proc.timeout:
+            return None
+        if stats is not None:
+            stats.record({"s": src}, True, tags=["bounds_family", "bounds_valid" if valid else "bounds_invalid"] +
+                         (["index_equals_length"] if case["idx"] == case["n"] else []), sample=None)
+        if r.diag and r.diag["cat"] in ("Lexical", "Parse", "Semantic"):
+            return {"why": f"array boundary program rejected: {r.diag}", "source": src}
+        if r.proc.signal or r.proc.sanitizer or r.rc not in (0, 1):
+            return {"why": "interpreter died / sanitizer report on an array access", "source": src, **r.proc.brief()}
+        if valid and (r.rc != 0 or r.stdout_lines[-1:] != ["done"]):
+            return {"why": f"in-range access (index {case['idx']}, length {case['n']}) failed: {r.stderr_lines[-1:]}", "source": src}
+        if not valid and not (r.rc == 1 and any("out of bounds" in ln for ln in r.stderr_lines)):
+            return {"why": f"index {case['idx']} on length {case['n']}: expected one 'out of bounds' runtime error, got rc={r.rc} "
+                           f"{r.stderr_lines[-1:]} out={r.stdout_lines[-2:]}", "source": src}
+        return None
+
     def run_case(self, case, sc, stats=None):
+        if case.get("kind") == "bounds":
+            return self.bounds_run(case, sc, stats)
         src = case["src"]
         r = progrun.run_cli(self.drv, sc, src)
         if r.proc.timeout:
@@ -238,7 +296,8 @@ def _worker(widx, wseed, tier, check):
         ovl = c08.overload_case().map(lambda c: {"kind": "dispatch", "src": c08.overload_program(c)})
         gen = c08.generic_case().map(lambda c: {"kind": "dispatch", "src": c08.generic_program(c)})
         for strat, n, tag in ((edge_case(), 450 if quick else 12000, "edge"), (mutated_profile_case(), 120 if quick else 5000, "mut"),
-                              (ovl, 80 if quick else 3000, "ovl"), (gen, 40 if quick else 1500, "gen")):
+                              (ovl, 80 if quick else 3000, "ovl"), (gen, 40 if quick else 1500, "gen"),
+                              (bounds_case(), 100 if quick else 2500, "bounds")):
             f = hyp_search(strat, prop, derive_seed(wseed, tag), n, stats)
             if f:
                 failures.append(f)
